@@ -216,7 +216,16 @@ func renderOperand(a Operand, names map[string]string) string {
 
 // Render produces expression text; alias bindings used are added to names.
 func (c *Cond) Render(names map[string]string, o RenderOpts) string {
-	return c.render(names, o, 0)
+	return o.pad() + c.render(names, o, 0) + o.pad()
+}
+
+// pad is whitespace before the first or after the last token of an expression (an indented raw string, a
+// trailing line break): mostly nothing, sometimes blanks, tabs and line breaks.
+func (o RenderOpts) pad() string {
+	if o.Rng == nil || o.Rng.Intn(3) != 0 {
+		return ""
+	}
+	return []string{" ", "  ", "\n\t", "\t\t ", "\r\n  ", "\n"}[o.Rng.Intn(6)]
 }
 
 func (c *Cond) render(names map[string]string, o RenderOpts, parentPrec int) string {
